@@ -226,6 +226,7 @@ pub fn a_body(src: Src, lo: u32, hi: u32) {
     assert!(got.1 == want.1, "cursor position kind/fields differ from the reference");
     cover!(matches!(want.1, Pos::Whitespace { .. }), "in_whitespace");
     cover!(matches!(want.1, Pos::Content { .. }), "in_content");
+    cover!(matches!(want.1, Pos::MultilineContent { .. }), "in_multiline_content");
     std::mem::forget(recon);
 }
 
@@ -306,6 +307,7 @@ pub fn b_body_changed(src: Src, lo: u32, hi: u32, hard: bool, iw: u8, cw: u8, ig
     }
     cover!(cb.nl == 2 && !ignore_b, "blank_line_in_new_layout");
     cover!(matches!(pos, Pos::Whitespace { .. }), "in_whitespace");
+    cover!(true, "checked");
     std::mem::forget(ft);
     std::mem::forget(recon);
 }
